@@ -67,6 +67,7 @@ Definition dispatch (req : sx) : sx :=
   (* ---------- aranges *)
   if op =? "enc_aranges" then SB (encode_aranges (gbool a1) (map g_arange_set (gL a2)))
   else if op =? "wf_aranges" then sx_bool (wf_aranges (map g_arange_set (gL a1)))
+  else if op =? "aligned" then sx_bool (aranges_aligned (map g_arange_set (gL a1)))
   else if op =? "disjoint" then
     sx_bool (ranges_disjoint (aranges_entries (map g_arange_set (gL a1))))
   else if op =? "aranges_spec" then
@@ -77,6 +78,8 @@ Definition dispatch (req : sx) : sx :=
            (aranges_init (gbool a1) (gB a2) (gI a3))
   else if op =? "entries_model" then   (* _get_entries(need_empty) *)
     sx_res (fun es => SL (map sx_entry es)) (get_entries (gbool a1) (gbool a4) (gB a2) (gI a3))
+  else if op =? "entries_model_unfixed" then   (* the code before fix efe8bbe (section-relative padding) *)
+    sx_res (fun es => SL (map sx_entry es)) (get_entries_unfixed (gbool a1) (gbool a4) (gB a2) (gI a3))
   else if op =? "lookup_spec" then
     let es := aranges_entries (map g_arange_set (gL a1)) in
     SL (map (fun a => sx_ok (sx_optZ (lookup_spec es (gI a)))) (gL a2))
